@@ -389,6 +389,19 @@ impl Prop for C16 {
     }
 
     fn check(c: &Case, obs: &mut Obs) {
+        // history round (core::history_round): the same inputs with `graphemes` flipped in between
+        if history_round(
+            c,
+            obs,
+            |c| {
+                let mut v = c.clone();
+                v.graphemes = !v.graphemes;
+                v
+            },
+            Self::check,
+        ) {
+            return;
+        }
         let m = Model::new(&c.text, c.graphemes);
         let n = m.n();
         // limits beyond any text length get their own signatures
